@@ -76,6 +76,8 @@ func c10Run(s *c10Scn, segName string, logEnc *json.Encoder, logMu *sync.Mutex) 
 	cli := stdCLI("exec")
 	login := &simdev.Login{Inner: cli, EchoUser: s.Style == "telnet"}
 
+	longMotd := false
+
 	for k, kind := range s.Script {
 		st := simdev.LoginStep{Kind: kind}
 
@@ -84,6 +86,23 @@ func c10Run(s *c10Scn, segName string, logEnc *json.Encoder, logMu *sync.Mutex) 
 			st.Text = "*** Authorized access only (site " + fmt.Sprint(k) + ") ***\r\n"
 			if s.Style == "ssh" {
 				st.Text = "Warning: Permanently added 'r1' (ED25519) to the list of known hosts.\r\n"
+			}
+
+			if k+1 < len(s.Script) && s.Script[k+1] == "shell" && s.Class == "ok" && s.Fault == "" && s.idx%3 == 0 {
+				// a message of the day that is longer than the prompt search depth, right in front of the shell prompt: all of
+				// it has been read by the login and must still be there for the first operation
+				var m strings.Builder
+
+				m.WriteString("MOTD-BEGIN\r\n")
+
+				for l := 0; l < 34; l++ {
+					fmt.Fprintf(&m, "  notice line %02d: unauthorised use is prohibited\r\n", l)
+				}
+
+				m.WriteString("MOTD-END\r\n")
+
+				st.Text += m.String()
+				longMotd = true
 			}
 		case "askuser":
 			// the last spelling: the device prints a notice behind the question on the same line (seen on IOS with Kerberos configured)
@@ -130,12 +149,17 @@ func c10Run(s *c10Scn, segName string, logEnc *json.Encoder, logMu *sync.Mutex) 
 		ap.AuthType = transport.InChannelAuthTelnet
 	}
 
+	opTimeout := 300 * time.Millisecond
+	if longMotd {
+		opTimeout = 2 * time.Second // 1.9 kB one byte at a time do not fit into the short budget
+	}
+
 	capDebug := &logCapture{level: "debug"}
 	li, _ := logging.NewInstance(logging.WithLevel("debug"), logging.WithLogger(capDebug.log))
 	chanLog := &bytes.Buffer{}
 	chanLogMu := &sync.Mutex{}
 
-	d, err := generic.NewDriver("sim", options.WithCustomTransport(ap), options.WithReadDelay(30*time.Microsecond), options.WithTimeoutOps(300*time.Millisecond),
+	d, err := generic.NewDriver("sim", options.WithCustomTransport(ap), options.WithReadDelay(30*time.Microsecond), options.WithTimeoutOps(opTimeout),
 		options.WithAuthUsername(c10User), options.WithAuthPassword(c10Pass), options.WithLogger(li), options.WithChannelLog(lockedWriter{chanLog, chanLogMu}))
 	if err != nil {
 		fail(&v, "C10:new-error", "%v", err)
@@ -218,7 +242,7 @@ func c10Run(s *c10Scn, segName string, logEnc *json.Encoder, logMu *sync.Mutex) 
 		fail(&v, "C10:"+s.Style+":failed-login-leaves-transport-open:"+s.Class, "script [%s]: Open failed (%v) but the transport was not closed", scriptS, oerr)
 	}
 
-	if v.OK && s.Class == "ok" && trailer {
+	if v.OK && s.Class == "ok" && (trailer || longMotd) {
 		pipe.WaitDrained(time.Second)
 		time.Sleep(2 * time.Millisecond)
 
@@ -229,6 +253,9 @@ func c10Run(s *c10Scn, segName string, logEnc *json.Encoder, logMu *sync.Mutex) 
 		switch {
 		case rerr != nil:
 			fail(&v, "C10:"+s.Style+":bytes-after-login", "script [%s]: ReadAll after login: %v", scriptS, rerr)
+		case longMotd && (bytes.Count(all, []byte("MOTD-BEGIN")) != 1 || bytes.Count(all, []byte("MOTD-END")) != 1 || bytes.Count(all, []byte("notice line")) != 34):
+			fail(&v, "C10:"+s.Style+":bytes-read-during-login-lost", "script [%s]: the message of the day printed in front of the shell prompt is not (completely) available after login: the channel holds %d bytes starting %q", scriptS, len(all), string(all[:min2(80, len(all))]))
+		case !trailer:
 		case i1 < 0 || i2 < 0 || i1 > i2 || bytes.Count(all, []byte(lateMark)) != 1 || !bytes.HasSuffix(bytes.TrimSpace(all), []byte("r1>")):
 			fail(&v, "C10:"+s.Style+":bytes-after-login-lost-or-reordered", "script [%s]: after login the channel holds %q; the device sent its first prompt, then %q", scriptS, all, login.Trailer)
 		}
